@@ -11,6 +11,7 @@ factory calls, end-to-end POST around app.data_size).
 The monitor's encoder below is written from RFC 7578/2046 and is independent
 of the model; `run_encode` ties the encoder the theorems speak about to it."""
 import io
+import re
 
 import implrun  # noqa: F401  (sets sys.path)
 from implrun import new_app, environ, call
@@ -194,6 +195,11 @@ def alphabet(boundary):
     if len(boundary) > 1:
         toks.append(b"\r\n--" + boundary[:-1] + b"\r\n")
         toks.append(b"\r\n--" + boundary[1:])
+    # near copies: the whole dash-boundary at a line start, then more
+    for more in (b"x", b"-", b"-\r\n", b"--x", b"---", b"\x00", b"-- x"):
+        toks.append(b"\r\n" + dash + more)
+        toks.append(b"\n" + dash + more)
+    toks.append(dash)
     return toks
 
 
@@ -205,9 +211,22 @@ def gen_content(rng, boundary, size):
     return out[:size]
 
 
+_DELIM_TAIL = re.compile(rb"(--)?[ \t\n\r\x0b\x0c]")
+
+
 def dirty(content, boundary):
-    """the content has a line that starts with the dash-boundary"""
-    return (b"\n--" + boundary) in (b"\n" + content)
+    """a line of the content reads as a delimiter line: it starts with the
+    dash-boundary and goes on with white space, or with "--" and white space
+    (the end of the content counts as CRLF: the delimiter's CRLF follows).
+    Near copies such as --bX, --b-, --b--X are clean."""
+    pat = b"\n--" + boundary
+    text = b"\n" + content + b"\r\n"
+    at = text.find(pat)
+    while at >= 0:
+        if _DELIM_TAIL.match(text, at + len(pat)):
+            return True
+        at = text.find(pat, at + 1)
+    return False
 
 
 def gen_parts(rng, boundary, nparts, maxsize, clean=True):
@@ -399,7 +418,7 @@ def add_parse_cases(ctx, cases, body, ctype_value, clen, cb, label,
 # --------------------------------------------------------- correspondence
 def corr_small(ctx, cases):
     rng = ctx.rng
-    nbodies = 220 if ctx.quick else 2500
+    nbodies = 150 if ctx.quick else 2500
     maxparts = 3 if ctx.quick else 6
     for i in range(nbodies):
         # keep model-side literals small
@@ -487,7 +506,7 @@ def corr_units(ctx, cases):
     from poorwsgi.headers import parse_header
     from poorwsgi.request import CachedInput
     rng = ctx.rng
-    n = 300 if ctx.quick else 3000
+    n = 200 if ctx.quick else 3000
     for i in range(n):
         boundary = gen_boundary(rng, 8)
         size = rng.randrange(0, 40)
@@ -703,7 +722,7 @@ def monitor_case(ctx, boundary, parts, final, clen_on, cb, kbv, tag,
 
 def monitor(ctx):
     rng = ctx.rng
-    n = 180 if ctx.quick else 4000
+    n = 120 if ctx.quick else 4000
     maxparts = 3 if ctx.quick else 6
     for i in range(n):
         boundary = gen_boundary(rng)
